@@ -269,6 +269,26 @@ def cases_for(ctx, rng):
         d1 = np.round(pos[n] - pos[a]); d2 = np.round(pos[n + 1] - pos[n])
         cross = np.concatenate([base.edges.crossing, [[0, 0], [0, 0]]])
         cases.append((f"spike#{t}", "spike", Lattice(pos, edges, cross)))
+    # single tails whose vertices carry every possible label, in particular 0: in some round of the trimming loop the set of dangling vertices is then
+    # exactly {0} (or {k}), the values on which index-truthiness and off-by-one mistakes in the loop condition show
+    def relabel(pos, edges, cross, new_of_old):
+        inv = np.argsort(new_of_old)
+        return Lattice(pos[inv], np.array(new_of_old)[edges], cross)
+    for t in range(3 if quick else 12):
+        k = 1 + t % 3                                    # tail length
+        m = 4 + t % 2                                    # cycle length
+        ang = 2 * np.pi * np.arange(m) / m
+        cyc = 0.5 + 0.3 * np.stack([np.cos(ang), np.sin(ang)], axis=1)
+        tail = np.array([[0.5 + 0.3 + 0.05 * (i + 1), 0.5 + 0.01 * (i + 1)] for i in range(k)])       # outwards from cycle vertex 0: no new plaquette (not K1)
+        pos = np.concatenate([cyc, tail])
+        edges = np.array([[i, (i + 1) % m] for i in range(m)] + [[0 if i == 0 else m + i - 1, m + i] for i in range(k)])
+        cross = np.zeros_like(edges)
+        n = m + k
+        for target in range(m, n):                       # each tail vertex becomes vertex 0 once
+            perm = np.arange(n); perm[[0, target]] = perm[[target, 0]]
+            cases.append((f"tail{m}+{k}:v{target}->0", "tail", relabel(pos, edges, cross, perm)))
+        cases.append((f"tail{m}+{k}:random", "tail", relabel(pos, edges, cross, rng.permutation(n))))
+        cases.append((f"tail{m}+{k}:reversed", "tail", relabel(pos, edges, cross, np.arange(n)[::-1].copy())))
     # the fixed witness of known finding K1: a square with an inward dangling edge (always exercised)
     cases.append(("K1-witness", "spike", Lattice(np.array([[0.2, 0.2], [0.8, 0.2], [0.8, 0.8], [0.2, 0.8], [0.5, 0.55]]),
                                                np.array([[0, 1], [1, 2], [2, 3], [3, 0], [0, 4]]), np.zeros((5, 2), dtype=int))))
